@@ -23,6 +23,12 @@ def main():
         elif a.prop in ("C04", "C05", "C06", "C07", "C08"):
             from . import replaceops
             rc = replaceops.run(a.prop, a.tier, a.replay)
+        elif a.prop == "C16":
+            from . import cmlops
+            rc = cmlops.run(a.prop, a.tier, a.replay)
+        elif a.prop == "C14":
+            from . import massops
+            rc = massops.run(a.prop, a.tier, a.replay)
         else:
             print("no check registered for %s" % a.prop)
             rc = 2
